@@ -19,7 +19,7 @@ RULE = ("Hypothesis-generated synthetic checkpoints (1-3 nested levels, non-cubi
         "output (trailing slash, names without 'chk') x drawn worker order. Oracle: taste accepts incl. coordinates; "
         "field list; levels, boxes, time, bounds; every box == interior of the state FAB bit-exact (species / sum when "
         "flooring, rtol 1e-14) followed by the gradp / I_R FAB with the same index range; min/max rows == extrema of "
-        "the written data; checkpoint snapshot unchanged; two numpy.empty poisons give identical trees. "
+        "the written data; checkpoint snapshot unchanged; two numpy.empty / empty_like poisons give identical trees (one checkpoint in four holds cells without any species: what flooring makes of them is not asserted, only that it is determined by the checkpoint). "
         "Non-trivial = >= 2 levels, or a scattered / non-monotone subset layout, or state and gradp layouts differ.")
 ASSUMPTIONS = ["checkpoint format as in test_assets/example_chk_3d (five subsets, nodal p, ghosted state / divU)",
                "non-integral times (the reader's heuristic for the optional integer line)"]
@@ -163,9 +163,14 @@ def check_case(case, ctx):
                 v.append(f"level {l} box {b}: physical bounds {olev['phys'][b]} != {ephys}")
             st_ = chk.interior("state", l, b).copy()
             rtol = 0.0
+            nosp = np.zeros(st_.shape[:3], bool)
             if case["floor"]:
                 ysum = st_[..., 4:4 + chk.nspec].sum(axis=-1)
-                st_[..., 4:4 + chk.nspec] /= ysum[..., np.newaxis]
+                # cells without any species cannot be rescaled to sum to one: their mass fractions are not asserted, only
+                # that they are determined by the checkpoint (the two-poison differential below)
+                nosp = ysum == 0.0
+                with np.errstate(invalid="ignore", divide="ignore"):
+                    st_[..., 4:4 + chk.nspec] /= ysum[..., np.newaxis]
             parts = [st_]
             if case["gradp"]:
                 parts.append(chk.data("gradp", l, b))
@@ -184,7 +189,7 @@ def check_case(case, ctx):
                 v.append(f"level {l} box {b} ({lo}..{hi}): field {np.array(fields)[other][j]} is not the checkpoint's "
                          f"interior value of the box with the same index range")
             elif case["floor"]:
-                if not np.allclose(got[..., ysl], exp[..., ysl], rtol=1e-14, atol=0):
+                if not np.allclose(got[..., ysl][~nosp], exp[..., ysl][~nosp], rtol=1e-14, atol=0):
                     v.append(f"level {l} box {b}: mass fractions are not the checkpoint values rescaled to sum to one")
             elif not refread.same_bits(got[..., ysl], exp[..., ysl]):
                 v.append(f"level {l} box {b}: mass fractions differ from the checkpoint although flooring is off")
